@@ -424,6 +424,9 @@ fn normalise_cases(sink: &mut Sink, rng: &mut Rng, n: usize, scratch: &str) {
     // `canonical_target` consults the working directory
     let cwd = PathBuf::from(scratch).join("cwd with space").join("proj");
     std::fs::create_dir_all(&cwd).unwrap();
+    // the project root is this directory (baseline keys are relative to the project root)
+    std::fs::write(cwd.join(".sloc-guard.toml"), "version = \"2\"\n").unwrap();
+    std::fs::create_dir_all(cwd.join("sub dir/deeper")).unwrap();
     let cwd = cwd.canonicalize().unwrap();
     std::env::set_current_dir(&cwd).unwrap();
     let cwd_s = cwd.to_string_lossy().into_owned();
@@ -523,6 +526,25 @@ fn normalise_cases(sink: &mut Sink, rng: &mut Rng, n: usize, scratch: &str) {
             }
         }
         sink.push(Case { request: format!("match-key {}", enc(&walked.to_string_lossy())), implementation: format!("match={} baseline={}", enc(&m.to_string_lossy()), enc(&b)), pred: pred.map_or_else(|| "ok".into(), |p| format!("FAIL {p}")), tag: format!("keys/style{style}") });
+        // the same walk in a run started below the project root: the baseline key is the
+        // project-relative path all the same
+        if !sink.want() {
+            sink.skip();
+            continue;
+        }
+        let below = ["sub dir", "sub dir/deeper"][rng.fork().below(2)];
+        std::env::set_current_dir(cwd.join(below)).unwrap();
+        let root2 = sloc_guard::commands::context::verif_canonical_target(Path::new(if style % 2 == 0 { "." } else { "./" }));
+        let walked2 = if entry.is_empty() { root2.clone() } else { root2.join(entry) };
+        let b2 = sloc_guard::baseline::baseline_key(&walked2);
+        std::env::set_current_dir(&cwd).unwrap();
+        let want2 = if entry.is_empty() { below.to_string() } else { format!("{below}/{entry}") };
+        sink.push(Case {
+            request: format!("match-key {} {}", enc(&walked2.to_string_lossy()), enc(below)),
+            implementation: format!("match={} baseline={}", enc(&sloc_guard::output::path::verif_normalize_for_matching(&walked2).to_string_lossy()), enc(&b2)),
+            pred: if b2 == want2 { "ok".into() } else { format!("FAIL started in `{below}`, the baseline key of {walked2:?} is {b2:?}, project-relative {want2:?}") },
+            tag: "keys/below-root".into(),
+        });
     }
 }
 
